@@ -85,3 +85,33 @@ pub fn span_line<T: syn::spanned::Spanned>(t: &T) -> usize {
 pub fn expr_str(e: &syn::Expr) -> String {
     tok(e)
 }
+
+/// Inline table for interprocedural abstract evaluation: every free fn of the crate whose name is
+/// unique (so helper fns introduced by a refactoring are followed automatically) plus the
+/// methods of the given types under `.name`.
+pub fn inline_all(m: &Model, method_types: &[&str]) -> std::collections::BTreeMap<String, (Vec<String>, syn::Block)> {
+    let mut count: std::collections::BTreeMap<String, usize> = std::collections::BTreeMap::new();
+    for f in m.fns.iter().filter(|f| f.self_ty.is_none() && f.krate == "rasn-compiler") {
+        *count.entry(f.name.clone()).or_default() += 1;
+    }
+    let params = |f: &FnInfo| -> Vec<String> {
+        f.sig.inputs.iter().filter_map(|a| match a {
+            syn::FnArg::Typed(t) => Some(tok(&t.pat).replace("mut ", "")),
+            _ => None,
+        }).collect()
+    };
+    let mut t = std::collections::BTreeMap::new();
+    for f in m.fns.iter().filter(|f| f.self_ty.is_none() && f.krate == "rasn-compiler") {
+        if count.get(&f.name) == Some(&1) {
+            t.insert(f.name.clone(), (params(f), f.block.clone()));
+        }
+    }
+    for ty in method_types {
+        for f in m.fns.iter().filter(|f| f.self_ty.as_deref() == Some(*ty) && f.trait_.is_none()) {
+            if f.sig.inputs.iter().any(|a| matches!(a, syn::FnArg::Receiver(_))) {
+                t.insert(format!(".{}", f.name), (params(f), f.block.clone()));
+            }
+        }
+    }
+    t
+}
